@@ -223,7 +223,11 @@ func genDocSet(rt *rapid.T, dangle []string) *docSet {
 		if rapid.Bool().Draw(rt, "hasvip") {
 			var l []string
 			for k := rapid.IntRange(1, 2).Draw(rt, "nvips"); k > 0 && vi < len(vipPool); k-- {
-				l = append(l, vipPool[vi])
+				ip := spellVip(rt, vipPool[vi])
+				if ip != vipPool[vi] {
+					d.feat("vip-other-spelling")
+				}
+				l = append(l, ip)
 				vi++
 			}
 			vips = append(vips, kv{p, strs(l)})
@@ -711,6 +715,88 @@ func c13Negative(rt *rapid.T, rec *ev.Rec, dir string) {
 	}
 }
 
+// ---------- malformed conditions ----------
+
+// calls that contradict the documented prototype of the primitive (docs/en_us/condition/**)
+var malformedCalls = []struct{ text, kind string }{
+	{`req_path_in("/a")`, "too-few-args"},
+	{`req_path_prefix_in("/a")`, "too-few-args"},
+	{`req_host_in()`, "too-few-args"},
+	{`req_method_in()`, "too-few-args"},
+	{`req_vip_in()`, "too-few-args"},
+	{`req_query_value_in("k")`, "too-few-args"},
+	{`req_cookie_value_prefix_in("deviceid", "x")`, "too-few-args"},
+	{`req_header_value_in("X-A")`, "too-few-args"},
+	{`default_t("x")`, "too-many-args"},
+	{`req_host_in("a.com", "b.com")`, "too-many-args"},
+	{`req_path_in("/a", "yes")`, "wrong-arg-type"},
+	{`req_path_in(true, false)`, "wrong-arg-type"},
+	{`req_nonsense_in("a")`, "unknown-primitive"},
+}
+
+var condContexts = []struct {
+	name string
+	wrap func(x string) string
+}{
+	{"bare", func(x string) string { return x }},
+	{"negated", func(x string) string { return "!" + x }},
+	{"paren", func(x string) string { return "(" + x + ")" }},
+	{"negated-paren", func(x string) string { return "!(" + x + ")" }},
+	{"double-paren", func(x string) string { return "((" + x + "))" }},
+	{"and-left", func(x string) string { return x + " && default_t()" }},
+	{"or-right", func(x string) string { return `req_method_in("GET") || ` + x }},
+	{"paren-or-and", func(x string) string { return `(req_host_in("a.com") || ` + x + `) && default_t()` }},
+	{"negated-paren-and", func(x string) string { return `!(default_t() && ` + x + `)` }},
+	{"and-paren-right", func(x string) string { return `default_t() && (` + x + `)` }},
+}
+
+// c13MalformedCond puts one malformed primitive call, wrapped in an expression context, into an otherwise
+// documented route_rule.data: the loaders must reject the file with an error (no panic, no acceptance).
+func c13MalformedCond(tb ev.TB, rec *ev.Rec, dir string, d *docSet, call, ctx int) {
+	mc, cc := malformedCalls[call], condContexts[ctx]
+	cond := cc.wrap(mc.text)
+	rule := obj{{"Cond", cond}, {"ClusterName", "cluster_0"}}
+	rd := d.Docs[fRoute]
+	if i := indexKey(rd, "ProductRule"); i >= 0 {
+		adv := rd[i].V.(obj)
+		if j := indexKey(adv, "product_0"); j >= 0 {
+			adv[j].V = append(append([]any{}, adv[j].V.([]any)...), rule)
+		} else {
+			rd[i].V = append(adv, kv{"product_0", []any{rule}})
+		}
+	} else {
+		rd = append(rd, kv{"ProductRule", obj{{"product_0", []any{rule}}}})
+	}
+	d.Docs[fRoute] = rd
+	docs := d.bytes()
+	r := loadSet(dir, docs)
+	rec.Case("badcond|"+cond+"|"+string(docs[fRoute]), true, "negative", "malformed-cond", "badcond:"+mc.kind, "badcond-context:"+cc.name)
+	w := map[string]any{"cond": cond, "route_rule.data": d.Docs[fRoute]}
+	if r.panicked != nil {
+		rec.Fail(tb, "panic-"+r.panicked.Site, w, "%s panicked on condition %s: %s", r.where, cond, r.panicked.Val)
+		return
+	}
+	if r.single[fRoute] == nil || r.sdcErr == nil {
+		rec.Fail(tb, "malformed-cond-accepted-"+mc.kind+"-"+cc.name, w, "route_rule.data with the malformed condition %s is accepted", cond)
+	}
+}
+
+// c13CondSweep: every malformed call in every context on a minimal documented set.
+func c13CondSweep(t *testing.T, rec *ev.Rec, dir string) {
+	for call := range malformedCalls {
+		for ctx := range condContexts {
+			d := &docSet{}
+			d.Docs[fHost] = obj{{"Version", "1"}, {"Hosts", obj{{"t", strs([]string{"example.org"})}}}, {"HostTags", obj{{"product_0", strs([]string{"t"})}}}}
+			d.Docs[fVip] = obj{{"Version", "1"}, {"Vips", obj{}}}
+			d.Docs[fRoute] = obj{{"Version", "1"}, {"ProductRule", obj{{"product_0", []any{obj{{"Cond", "default_t()"}, {"ClusterName", "cluster_0"}}}}}}}
+			d.Docs[fCluster] = clusterConfFile([]string{"cluster_0"})
+			d.Docs[fGslb] = obj{{"Clusters", obj{{"cluster_0", obj{{"s", 100}}}}}, {"Hostname", "h"}, {"Ts", "1"}}
+			d.Docs[fCTable] = obj{{"Config", obj{{"cluster_0", obj{{"s", []any{obj{{"Addr", "10.0.0.1"}, {"Name", "n"}, {"Port", 80}, {"Weight", 1}}}}}}}}, {"Version", "1"}}
+			c13MalformedCond(t, rec, dir, d, call, ctx)
+		}
+	}
+}
+
 var danglingKinds = []string{"adv-product", "basic-product", "adv-cluster", "basic-cluster", "vip-product", "default-product", "gslb-cluster", "adv-cluster-ADVANCED_MODE"}
 
 func TestC13(t *testing.T) {
@@ -719,6 +805,7 @@ func TestC13(t *testing.T) {
 	if !skipFixed {
 		c13FixedDocs(t, rec, dir)
 		c13Hostile(t, rec, dir)
+		c13CondSweep(t, rec, dir)
 	}
 	rapid.Check(t, func(rt *rapid.T) {
 		switch k := rapid.IntRange(0, 9).Draw(rt, "generator"); {
@@ -734,6 +821,9 @@ func TestC13(t *testing.T) {
 			}
 			d := genDocSet(rt, uniq(dk))
 			c13Closure(rt, rec, dir, d)
+		case k == 5:
+			d := genDocSet(rt, nil)
+			c13MalformedCond(rt, rec, dir, d, rapid.IntRange(0, len(malformedCalls)-1).Draw(rt, "badcall"), rapid.IntRange(0, len(condContexts)-1).Draw(rt, "badctx"))
 		default:
 			c13Negative(rt, rec, dir)
 		}
